@@ -38,11 +38,12 @@ EXTENDS Naturals, Sequences, FiniteSets, SequencesExt
 CONSTANTS Formats,      \* subset of {"uri", "uripost", "raw", "json"}
           Methods,      \* method tokens for the formats that carry one (raw, json)
           URIs,         \* request-URI tokens
+          ExtraURIs,    \* request-URI tokens explored in the side space only
           Bodies,       \* non-empty body tokens (the empty body is always included)
           EntryHdrs,    \* sequence of [n, v]: alphabet of entry header fields
           OptHdrs,      \* sequence of [n, v]: alphabet of option header fields (may contain Host)
           SSLModes,     \* subset of BOOLEAN
-          CompressModes,\* subset of BOOLEAN
+          CompressModes,\* subset of BOOLEAN (TRUE is explored in the side space only)
           Variant
 
 Rng(s) == {s[i] : i \in DOMAIN s}
@@ -60,10 +61,18 @@ SubSeqsOf(alpha) == { SelectSeq(alpha, LAMBDA x : x \in S) : S \in SUBSET Rng(al
 MethodsOf(f) == CASE f = "uri" -> {"GET"} [] f = "uripost" -> {"POST"} [] OTHER -> Methods
 BodiesOf(f)  == IF f = "uri" THEN {""} ELSE {""} \cup Bodies
 
-Cases == UNION { { [fmt |-> f, ssl |-> s, compress |-> z, method |-> m, uri |-> u, host |-> h,
-                    ehdr |-> eh, opts |-> oh, body |-> b] :
-                     m \in MethodsOf(f), b \in BodiesOf(f), s \in SSLModes, z \in CompressModes,
+Case(f, s, z, m, u, h, eh, oh, b) ==
+    [fmt |-> f, ssl |-> s, compress |-> z, method |-> m, uri |-> u, host |-> h, ehdr |-> eh, opts |-> oh, body |-> b]
+
+\* main space: the full header/Host product over URIs with the default gun (compression disabled);
+\* side space: the other (compression, uri) combinations with entries that have headers of their own only
+Cases == UNION { { Case(f, s, FALSE, m, u, h, eh, oh, b) :
+                     m \in MethodsOf(f), b \in BodiesOf(f), s \in SSLModes,
                      u \in URIs, h \in BOOLEAN, eh \in SubSeqsOf(EntryHdrs), oh \in SubSeqsOf(OptHdrs) }
+                 \cup
+                 { Case(f, s, zu[1], m, zu[2], FALSE, eh, <<>>, b) :
+                     m \in MethodsOf(f), b \in BodiesOf(f), s \in SSLModes, eh \in SubSeqsOf(EntryHdrs),
+                     zu \in (CompressModes \X (URIs \cup ExtraURIs)) \ ({FALSE} \X URIs) }
                  : f \in Formats }
 
 -----------------------------------------------------------------------------
@@ -78,18 +87,23 @@ WireHost(c) ==
 
 ConfigWins(c) == Variant = "config_wins" /\ c.fmt \in {"uri", "uripost"}
 
-\* header fields other than Host, as [n |-> canonical name, v |-> <<values in order>>]
+\* the values a header list gives to a (canonical) name, in list order
+Vals(hs, n) == LET sel == SelectSeq(hs, LAMBDA h : Canon(h.n) = n)
+               IN  [k \in 1..Len(sel) |-> sel[k].v]
+
+\* header fields other than Host, as [n |-> canonical name, v |-> <<values in order>>]: a name the entry
+\* defines carries the entry's values, any other name of the option list carries the option's values
+\* (all of them, in option order, if the option repeats the name)
 WireHeaders(c) ==
     LET optNames == {o.n : o \in Rng(c.opts)} \ {"Host"}
-        fromEntry == { [n |-> Canon(h.n), v |-> <<h.v>>] :
-                          h \in {x \in Rng(c.ehdr) : ~(ConfigWins(c) /\ Canon(x.n) \in optNames)} }
-        fromOpts  == { [n |-> o.n, v |-> <<o.v>>] :
-                          o \in {x \in Rng(c.opts) :
-                                    /\ x.n # "Host"
-                                    /\ \/ x.n \notin Names(c.ehdr)
-                                       \/ ConfigWins(c)
-                                       \/ Variant = "opt_always"} }
-    IN  fromEntry \cup fromOpts
+        entNames == Names(c.ehdr)
+        Field(n) ==
+            IF ConfigWins(c) /\ n \in optNames
+            THEN [n |-> n, v |-> <<Vals(c.opts, n)[Len(Vals(c.opts, n))]>>]       \* header.Set: the last one wins
+            ELSE IF n \in entNames
+            THEN [n |-> n, v |-> IF Variant = "opt_always" THEN Vals(c.ehdr, n) \o Vals(c.opts, n) ELSE Vals(c.ehdr, n)]
+            ELSE [n |-> n, v |-> Vals(c.opts, n)]
+    IN  {Field(n) : n \in entNames \cup optNames}
 
 Wire(c) == [scheme  |-> IF c.ssl THEN "https" ELSE "http",
             server  |-> "target",
@@ -126,16 +140,15 @@ VARIABLE C          \* the case under inspection
 Init == C \in Cases
 Next == UNCHANGED C
 
-\* "headers in the ammo file have priority": each entry field arrives with the entry's value
-EntryWins == \A h \in Rng(C.ehdr) : [n |-> Canon(h.n), v |-> <<h.v>>] \in Wire(C).headers
-\* an option field is added exactly where the entry does not define that name
-OptionIffAbsent == \A o \in Rng(C.opts) : o.n # "Host" =>
-                      (([n |-> o.n, v |-> <<o.v>>] \in Wire(C).headers) <=> (o.n \notin Names(C.ehdr)))
+\* "headers in the ammo file have priority": each name the entry defines arrives with the entry's values
+EntryWins == \A n \in Names(C.ehdr) : [n |-> n, v |-> Vals(C.ehdr, n)] \in Wire(C).headers
+\* an option name is added (with all its values) exactly where the entry does not define that name
+OptionIffAbsent == \A n \in {o.n : o \in Rng(C.opts)} \ {"Host"} :
+                      ([n |-> n, v |-> Vals(C.opts, n)] \in Wire(C).headers) <=> (n \notin Names(C.ehdr))
 \* nothing is invented and no name is carried twice
-NoInvention == /\ \A w \in Wire(C).headers : \/ \E h \in Rng(C.ehdr) : Canon(h.n) = w.n /\ w.v = <<h.v>>
-                                             \/ \E o \in Rng(C.opts) : o.n = w.n /\ w.v = <<o.v>>
+NoInvention == /\ \A w \in Wire(C).headers : w.v = Vals(C.ehdr, w.n) \/ w.v = Vals(C.opts, w.n)
                /\ \A w1, w2 \in Wire(C).headers : w1.n = w2.n => w1 = w2
-               /\ \A w \in Wire(C).headers : w.n # "Host"
+               /\ \A w \in Wire(C).headers : w.n # "Host" /\ w.v # <<>>
 \* Host: the ammo's, else the option's, else the target's
 HostPrecedence == /\ C.host => Wire(C).host = "AMMOHOST"
                   /\ (~C.host /\ OptHost(C) # "") => Wire(C).host = OptHost(C)
